@@ -1217,6 +1217,13 @@ func c11ClientFlows(p *Prog, r *Report) {
 						continue
 					}
 				}
+				if c11ThroughSanitisingClient(p, fi, c) {
+					// the client behind the field is a decorator of the module that converts the status itself
+					o2 := opts
+					o2.sanitised = true
+					f.SiteConsumed(r, "C11.d", cons, fi, bs, o2)
+					continue
+				}
 				f.SiteConsumed(r, "C11.d", cons, fi, bs, opts)
 			}
 		}
@@ -1733,4 +1740,147 @@ func keyVisit(fi *FuncInfo, x ast.Node, res *string) bool {
 		}
 	}
 	return true
+}
+
+// c11ThroughSanitisingClient: the call is an interface call whose concrete callees (by the constructor wiring) are all
+// methods of the module that return only errors that already passed ClientError.
+func c11ThroughSanitisingClient(p *Prog, fi *FuncInfo, c *ast.CallExpr) bool {
+	keys := p.calleeKeys(fi.Pkg, c)
+	if len(keys) < 2 {
+		return false
+	}
+	n := 0
+	for _, k := range keys[1:] {
+		g := p.Func(k)
+		if g == nil || g.Decl.Body == nil {
+			// the generated client behind the decorator is reached through it only
+			continue
+		}
+		if !c11Sanitising(p, g, 0) {
+			return false
+		}
+		n++
+	}
+	if n == 0 {
+		return false
+	}
+	// every concrete type stored in the field itself must be such a decorator: the undecorated client in the list
+	// is acceptable only as the decorated one
+	if sel, ok := ast.Unparen(c.Fun).(*ast.SelectorExpr); ok {
+		if inner, ok := ast.Unparen(sel.X).(*ast.SelectorExpr); ok {
+			if fv, ok := fi.Pkg.TypesInfo.Uses[inner.Sel].(*types.Var); ok && fv.IsField() {
+				for _, t := range p.fieldTypes(fv) {
+					obj, _, _ := types.LookupFieldOrMethod(t, true, nil, sel.Sel.Name)
+					m, _ := obj.(*types.Func)
+					if m == nil {
+						return false
+					}
+					g := p.Func(fkey(m))
+					if g == nil || g.Decl.Body == nil || !c11Sanitising(p, g, 0) {
+						return false
+					}
+				}
+				return true
+			}
+		}
+	}
+	return false
+}
+
+// c11Sanitising: every return of g hands back nil, ClientError(..) or the result of another such function as its error.
+func c11Sanitising(p *Prog, g *FuncInfo, depth int) bool {
+	if depth > 3 || g.Decl.Body == nil {
+		return false
+	}
+	info := g.Pkg.TypesInfo
+	sig := g.Sig()
+	if sig.Results().Len() == 0 || !isErrorType(sig.Results().At(sig.Results().Len()-1).Type()) {
+		return false
+	}
+	var okExpr func(e ast.Expr, seen map[types.Object]bool) bool
+	okCall := func(c *ast.CallExpr) bool {
+		if p.callIs(g.Pkg, c, kAdClientErr) {
+			return true
+		}
+		if h := p.staticCallee(g.Pkg, c); h != nil && h.Key != g.Key {
+			return c11Sanitising(p, h, depth+1)
+		}
+		return false
+	}
+	okExpr = func(e ast.Expr, seen map[types.Object]bool) bool {
+		e = ast.Unparen(e)
+		if tv, ok := info.Types[e]; ok && tv.IsNil() {
+			return true
+		}
+		switch x := e.(type) {
+		case *ast.CallExpr:
+			return okCall(x)
+		case *ast.Ident:
+			o := objOf(info, x)
+			if o == nil || seen[o] {
+				return o != nil
+			}
+			seen[o] = true
+			if isParamOf(info, g.Decl, o) {
+				return false
+			}
+			defs := 0
+			good := true
+			ast.Inspect(g.Decl.Body, func(n ast.Node) bool {
+				as, ok := n.(*ast.AssignStmt)
+				if !ok {
+					return true
+				}
+				for i, l := range as.Lhs {
+					if id, ok := l.(*ast.Ident); ok && objOf(info, id) == o {
+						defs++
+						if len(as.Lhs) == len(as.Rhs) {
+							good = good && okExpr(as.Rhs[i], seen)
+						} else if cc, ok := ast.Unparen(as.Rhs[0]).(*ast.CallExpr); ok {
+							good = good && okCall(cc)
+						} else {
+							good = false
+						}
+					}
+				}
+				return true
+			})
+			return good && defs > 0
+		}
+		return false
+	}
+	all := true
+	nret := 0
+	var walk func(n ast.Node) bool
+	walk = func(n ast.Node) bool {
+		switch x := n.(type) {
+		case *ast.FuncLit:
+			return false
+		case *ast.ReturnStmt:
+			nret++
+			switch {
+			case len(x.Results) == 0:
+				all = false
+			case len(x.Results) == 1 && sig.Results().Len() > 1:
+				cc, ok := ast.Unparen(x.Results[0]).(*ast.CallExpr)
+				all = all && ok && okCall(cc)
+			default:
+				all = all && okExpr(x.Results[len(x.Results)-1], map[types.Object]bool{})
+			}
+		}
+		return true
+	}
+	ast.Inspect(g.Decl.Body, walk)
+	return all && nret > 0
+}
+
+func isParamOf(info *types.Info, d *ast.FuncDecl, o types.Object) bool {
+	for _, fld := range d.Type.Params.List {
+		for _, nm := range fld.Names {
+			if info.Defs[nm] == o {
+				return true
+			}
+		}
+	}
+	return false
 }
